@@ -1809,3 +1809,19 @@ m("C13", "fallback-reuses-filtered-attributes", ZP,
                             attr.eq, attr.space, attr.default, [])
                          for attr in attributes if''',
   '''                        [attr for attr in attributes if''')
+m("C12", "filler-without-handler", C,
+  '''            body = template("__token = None") + self._record_errors(
+                self.visit_Context(slot) or [ast.Pass()]
+            )''',
+  '''            body = self.visit_Context(slot)''')
+m("C12", "filler-called-with-stale-token", C,
+  '''        orelse = template("__token = None") + template(
+            "SLOT(__stream, econtext.copy(), rcontext)",''',
+  '''        orelse = template(
+            "SLOT(__stream, econtext.copy(), rcontext)",''')
+m("C11", "codeblock-syntaxerror-escapes", C,
+  '''        try:
+            stmts = template(textwrap.dedent(node.source.strip('\\n')))
+        except SyntaxError as exc:
+            raise ExpressionError(exc.msg, node.source)''',
+  '''        stmts = template(textwrap.dedent(node.source.strip('\\n')))''')
